@@ -378,6 +378,16 @@ def normalizeMembers3 (fuel : Nat) (tt : KVs) : FR KVs := do
         | _ => .error (.crash "extra members is not a sequence"))) () tt1
   .ok tt2
 
+/-- `for alias in list(ft_aliases_node): _resolve_ft_alias_from(ft_aliases_node, ft_aliases_node, alias)` -/
+def resolveAllAliases (v3 : Bool) (fuel : Nat) : List String → ASt → FR ASt
+  | [], st => .ok st
+  | a :: r, st =>
+    match kvGet a st.aliases with
+    | none => resolveAllAliases v3 fuel r st
+    | some v => do
+      let (v', st') ← resolveVal v3 fuel { st with aset := [] } v
+      resolveAllAliases v3 fuel r { st' with aliases := kvSet a v' st'.aliases }
+
 /-- `_expand_fts` on the trace type node -/
 def expandFts3 (fuel : Nat) (tt : KVs) : FR KVs :=
   match kvGetNN "$field-type-aliases" tt with
@@ -389,7 +399,9 @@ def expandFts3 (fuel : Nat) (tt : KVs) : FR KVs :=
     let f : ASt → Y → FR (Y × ASt) := fun st y => do
       let (y', st') ← resolveVal true fuel { st with aset := [] } y
       .ok (y', st')
-    let (tt2, _) ← overSlots3 isMapOrStr f (emSlots isMapOrStr f) ⟨aliases, [], []⟩ tt1
+    let (tt2, st2) ← overSlots3 isMapOrStr f (emSlots isMapOrStr f) ⟨aliases, [], []⟩ tt1
+    -- every alias is resolved, used or not (unknown alias names and cycles are always reported)
+    let _ ← resolveAllAliases true fuel (kvKeys st2.aliases) st2
     let tt3 := kvErase "$field-type-aliases" tt2
     let (tt4, _) ← overSlots3 Y.isMap (stateless (inheritVal true fuel)) (emSlots Y.isMap (stateless (inheritVal true fuel))) () tt3
     .ok tt4
